@@ -379,6 +379,16 @@ pub fn exec(plan: &ConcPlan) -> RunOut {
     if overlapped {
         out.bump("probe.requests_overlapped");
     }
+    // which pairings of operations really overlapped in time (every pairing must be reached)
+    for (i, a) in done.iter().enumerate() {
+        for b in done.iter().skip(i + 1) {
+            if a.tid != b.tid && a.inv < b.ret && b.inv < a.ret {
+                let (x, y) = if a.req.kind() <= b.req.kind() { (a.req.kind(), b.req.kind()) } else { (b.req.kind(), a.req.kind()) };
+                let same = a.req.client() == b.req.client();
+                out.bump(&format!("pair.overlap.{x}+{y}.{}", if same { "same_client" } else { "other_client" }));
+            }
+        }
+    }
     let new_client_overlap = http
         && done.iter().filter(|d| matches!(d.req, Req::AddVersion { .. }) && w.model.client(&d.req.client()).is_none()).count() >= 2;
     if new_client_overlap {
